@@ -48,7 +48,7 @@ var disturbances = map[bool][]string{
 		"payout fail", "payout pending", "settle success", "settle fail", "settle success later", "settle fail later", "agree", "agree badpubkey",
 	},
 	false: { // maker
-		"timeout", "cancel", "cancel from=third", "coop", "coop badkey", "coop from=third", "csv", "csv keep", "claimpaid", "claimpaid force", "feepaid", "feepaid force",
+		"timeout", "cancel", "cancel from=third", "coop", "coop badkey", "coop from=third", "csv", "claimpaid", "feepaid",
 		"blocks btc 1008", "blocks lbtc 10080", "txmsg", "agree", "agree badpubkey", "agree premium=2000000", "confirm",
 		"fault send down", "fault opening down", "fault height.btc down", "fault height.lbtc down", "fault getpayreq down", "fault csv down", "fault coop down",
 		"fault outputscript down", "fault balance down", "fault openingfee down", "fault label down",
@@ -170,7 +170,7 @@ func restPrefixes(role, chain string) map[string][]string {
 			"AwaitAgreement":    {n},
 			"AwaitClaimPayment": {n, "agree"},
 			"WaitCsv":           {n, "agree", "cancel"},
-			"ClaimSwapCsv":      cat([]string{n, "agree"}, rep("fault csv down", 22), []string{"csv keep"}),
+			"ClaimSwapCsv":      cat([]string{n, "agree"}, rep("fault csv down", 22), []string{"csv"}),
 			"Canceled":          {n, "cancel"},
 			"ClaimedPreimage":   {n, "agree", "claimpaid"},
 			"ClaimedCoop":       {n, "agree", "coop"},
@@ -181,7 +181,7 @@ func restPrefixes(role, chain string) map[string][]string {
 			"AwaitFeeInvoicePayment":   {n},
 			"AwaitClaimInvoicePayment": {n, "feepaid"},
 			"WaitCsv":                  {n, "feepaid", "cancel"},
-			"ClaimSwapCsv":             cat([]string{n, "feepaid"}, rep("fault csv down", 22), []string{"csv keep"}),
+			"ClaimSwapCsv":             cat([]string{n, "feepaid"}, rep("fault csv down", 22), []string{"csv"}),
 			"Canceled":                 {n, "cancel"},
 			"ClaimedPreimage":          {n, "feepaid", "claimpaid"},
 			"ClaimedCoop":              {n, "feepaid", "coop"},
@@ -192,7 +192,7 @@ func restPrefixes(role, chain string) map[string][]string {
 }
 
 var stimuli = []string{"timeout", "cancel", "cancel from=third", "coop", "coop badkey", "agree", "agree badpubkey", "txmsg", "txmsg tx=junk",
-	"confirm", "confirm err", "csv", "csv keep", "claimpaid force", "feepaid force", "restart", "blocks btc 600", "blocks lbtc 100"}
+	"confirm", "confirm err", "csv", "claimpaid force", "feepaid force", "restart", "blocks btc 600", "blocks lbtc 100"}
 
 type scn struct {
 	role  string
